@@ -82,7 +82,8 @@ def gauss (j : Json) : Except String Json := do
     let o ← decompGauss tol W p
     .ok (J.obj [("layers", J.ofList (J.ofList ofGOp) o.layers),
                 ("left_layers", J.ofList (J.ofList ofRot) o.leftLayers),
-                ("diag", J.ofList J.ofGQ o.diag), ("left_diag", J.ofList J.ofGQ o.leftDiag)])
+                ("diag", J.ofList J.ofGQ o.diag), ("left_diag", J.ofList J.ofGQ o.leftDiag),
+                ("all_pivots", Json.bool (gaussAllPivots o W.length))])
 
 /-- do the executable hypotheses of the reconstruction theorems hold for this input?
 (`square_decomposition_checked` / `givens_decomposition_checked`) -/
